@@ -134,5 +134,28 @@ pub mod l1 {
     pub fn c_nan() -> (r: f64) ensures r == f_nan() { f64::NAN }
     #[verifier::external_body]
     pub fn c_infinity() -> (r: f64) ensures r == f_inf() { f64::INFINITY }
+
+    // largest / smallest finite value (rule R9); a *finite* datum lies between them (hypothesis on inputs, never an axiom:
+    // a global bound would contradict the unbounded homomorphism above)
+    pub uninterp spec fn f_maxval() -> f64;
+    pub uninterp spec fn f_minval() -> f64;
+    #[verifier::external_body]
+    pub fn c_max() -> (r: f64) ensures r == f_maxval() { f64::MAX }
+    #[verifier::external_body]
+    pub fn c_min() -> (r: f64) ensures r == f_minval() { f64::MIN }
+    pub open spec fn finite(x: f64) -> bool { !f_is_nan(x) && rv(f_minval()) <= rv(x) <= rv(f_maxval()) }
+    // f64::max / f64::min (IEEE maxNum / minNum): a NaN operand is ignored, otherwise the larger / smaller operand
+    // (specs `f_fmax` / `f_fmin` of the methods are declared in fmeth.rs)
+    #[verifier::external_body]
+    pub broadcast proof fn ax_nan_is_nan() ensures #[trigger] f_is_nan(f_nan()) {}
+    #[verifier::external_body]
+    pub broadcast proof fn ax_max(a: f64, b: f64)
+        ensures f_is_nan(a) ==> #[trigger] f_fmax(a, b) == b,
+                !f_is_nan(a) && !f_is_nan(b) ==> (f_fmax(a, b) == a || f_fmax(a, b) == b) && rv(f_fmax(a, b)) >= rv(a) && rv(f_fmax(a, b)) >= rv(b) {}
+    #[verifier::external_body]
+    pub broadcast proof fn ax_min(a: f64, b: f64)
+        ensures f_is_nan(a) ==> #[trigger] f_fmin(a, b) == b,
+                !f_is_nan(a) && !f_is_nan(b) ==> (f_fmin(a, b) == a || f_fmin(a, b) == b) && rv(f_fmin(a, b)) <= rv(a) && rv(f_fmin(a, b)) <= rv(b) {}
+    pub broadcast group l1_minmax { ax_nan_is_nan, ax_max, ax_min }
     }
 }
